@@ -249,6 +249,9 @@ pub struct Ctx {
     pub exact_inputs: HashMap<String, BigRational>,
     /// value given (in Exact mode) to inputs the model does not mention
     pub exact_default: BigRational,
+    /// exact replay only: the operands of the most recent constant division that produced each constant (so that an obligation
+    /// posed on a destructured quotient, `ratio_parts`, is reached on replay too, where every term folds to a constant)
+    pub div_parts: HashMap<u32, (u32, u32)>,
     pub var_names: Vec<String>,
     var_ids: HashMap<String, u32>,
     // per-path state
@@ -419,7 +422,7 @@ impl Ctx {
     pub fn new(timeout_ms: u64) -> Self {
         Ctx {
             nodes: vec![], cons: HashMap::new(), deps: vec![], ndeps: vec![], nl: vec![], hd: vec![], defs: vec![], declared: vec![],
-            solver: Solver::new(timeout_ms), mode: Mode::Symbolic, exact_inputs: HashMap::new(), exact_default: BigRational::zero(),
+            solver: Solver::new(timeout_ms), mode: Mode::Symbolic, exact_inputs: HashMap::new(), exact_default: BigRational::zero(), div_parts: HashMap::new(),
             var_names: vec![], var_ids: HashMap::new(),
             pc: vec![], decisions: vec![], prefix: vec![], pending: vec![], trace: vec![], cache: HashMap::new(),
             stats: PathStats::default(), violations: vec![], max_decisions: 400, check_obligations: true, approx: false, n_inputs: 0, branch_nl_timeout_ms: timeout_ms, deadline: None, ticks: std::cell::Cell::new(0), pc_smt: vec![], levels: vec![], solver_epoch: 0, lin_memo: RefCell::new(HashMap::new()), n_lin_decided: std::cell::Cell::new(0), unit_box: Default::default(), alin_memo: RefCell::new(HashMap::new()), alin_old: RefCell::new(HashMap::new()), alin_weight: std::cell::Cell::new(0), poly_memo: RefCell::new(HashMap::new()), n_poly_decided: std::cell::Cell::new(0), rat_memo: RefCell::new(HashMap::new()), n_rat_decided: std::cell::Cell::new(0), rat_ok: std::cell::Cell::new(false), box_seq: 0, crosscheck_every: 0, ob_seq: 0, crosscheck: (0, 0, 0, vec![]), concolic: None, concretised: false, fval_memo: RefCell::new(HashMap::new()),
@@ -1282,6 +1285,7 @@ pub fn cf(f: f64) -> Sym {
 fn k(s: Sym) -> Option<BigRational> { with(|c| c.konst(s.0).cloned()) }
 fn node(s: Sym) -> Node { with(|c| c.nodes[s.0 as usize].clone()) }
 pub fn node_of(s: Sym) -> Node { node(s) }
+pub fn exact_div_parts(s: Sym) -> Option<(Sym, Sym)> { with(|c| if c.mode == Mode::Exact { c.div_parts.get(&s.0).map(|(a, b)| (Sym(*a), Sym(*b))) } else { None }) }
 pub fn konst_of(s: Sym) -> Option<BigRational> { k(s) }
 pub fn show(s: Sym) -> String { with(|c| c.show(s.0, 6)) }
 fn nan() -> Sym { cf(f64::NAN) }
@@ -1397,7 +1401,7 @@ fn bin(a: Sym, b: Sym, op: u8) -> Sym {
     if let (Some(x), Some(y)) = (&ka, &kb) {
         return match op {
             0 => cst(q_add(x, y)), 1 => cst(q_add(x, &-y.clone())), 2 => cst(q_mul(x, y)),
-            _ => if y.is_zero() { if x.is_zero() { nan() } else if x.is_positive() { cf(f64::INFINITY) } else { cf(f64::NEG_INFINITY) } } else { cst(x / y) },
+            _ => if y.is_zero() { if x.is_zero() { nan() } else if x.is_positive() { cf(f64::INFINITY) } else { cf(f64::NEG_INFINITY) } } else { let r = cst(x / y); with(|c| if c.mode == Mode::Exact { c.div_parts.insert(r.0, (a.0, b.0)); }); r },
         };
     }
     let isz = |k: &Option<BigRational>| k.as_ref().map_or(false, |x| x.is_zero());
